@@ -1,6 +1,6 @@
 (* C28: the property-level statements assembled from Run/CoerceProofs.v, the refutation witnesses and the
    non-vacuity examples.  Props/C28.v only restates them. *)
-From Coq Require Import ZArith String.
+From Coq Require Import ZArith String Lia.
 From ApolloVerif Require Import Base.Chars Ast.Ast Schema.Model Run.Json Run.JsonLemmas Run.Coerce
   Run.CoerceSpec Run.CoerceProofs.
 
@@ -8,26 +8,17 @@ From ApolloVerif Require Import Base.Chars Ast.Ast Schema.Model Run.Json Run.Jso
 Definition C28_wf (s : schema) (vars : list vardef) (values : jmap) : Prop :=
   cv_schema_wf s = true /\ cv_vars_wf vars = true /\ json_wf (JObj values) = true.
 
-Lemma known_split s vars values : Known_C28 s vars values = false ->
-  cv_schema_defaults_coerced s = true /\
-  forallb (fun vd => cv_default_coerced s (v_ty vd) (v_default vd)) vars = true /\
-  known_edge_int values = false.
-Proof.
-  unfold Known_C28, known_default_not_coerced. intros H. apply orb_false_iff in H. destruct H as [H1 H2].
-  apply negb_false_iff, andb_true_iff in H1. tauto.
-Qed.
-
 Lemma known_split_default s vars : known_default_not_coerced s vars = false ->
   cv_schema_defaults_coerced s = true /\
   forallb (fun vd => cv_default_coerced s (v_ty vd) (v_default vd)) vars = true.
 Proof. unfold known_default_not_coerced. intros H. apply negb_false_iff, andb_true_iff in H. tauto. Qed.
 
 
-Lemma c28_iff : forall s vars values, C28_wf s vars values -> Known_C28 s vars values = false ->
+Lemma c28_iff : forall s vars values, C28_wf s vars values -> known_default_not_coerced s vars = false ->
   ((exists r, coerce_variable_values s vars values = CvOk r) <-> (exists r, SpecVars s vars values r)) /\
   (forall r, coerce_variable_values s vars values = CvOk r -> SpecVars s vars values r).
 Proof.
-  intros s vars values (Hs & Hv & Hj) Hk. destruct (known_split _ _ _ Hk) as (Hd & Hvd & He).
+  intros s vars values (Hs & Hv & Hj) Hk. destruct (known_split_default _ _ Hk) as (Hd & Hvd).
   split; [split|].
   - intros [r H]. exists r. now apply cv_vars_sound.
   - intros [r H]. now apply (cv_vars_complete s Hs Hd vars values Hv Hj Hvd r).
@@ -85,14 +76,13 @@ Definition ex_result : jmap := [(ex_s "a", JInt 1); (ex_s "i", JObj [(ex_s "y", 
 
 
 Lemma c28_default_refuted : exists s vars values r,
-  C28_wf s vars values /\ known_edge_int values = false /\
+  C28_wf s vars values /\
   coerce_variable_values s vars values = CvOk r /\
   ~ SpecVars s vars values r /\
   (exists vd rv, In vd vars /\ jmap_get (v_name vd) r = Some rv /\ conforms_input s rv (v_ty vd) = false).
 Proof.
-  exists ex_schema, ex_vars, [], ex_result. split; [|split; [|split; [|split]]].
+  exists ex_schema, ex_vars, [], ex_result. split; [|split; [|split]].
   - repeat split; vm_compute; reflexivity.
-  - reflexivity.
   - vm_compute. reflexivity.
   - intros [_ H]. specialize (H (ex_var "a" (TList (TNamed (ex_s "Int"))) (Some (VInt (ex_s "1")))) (or_introl eq_refl)).
     destruct H as (_ & H & _). specialize (H (VInt (ex_s "1")) eq_refl eq_refl).
@@ -103,13 +93,14 @@ Proof.
     split; [now left|]. split; vm_compute; reflexivity.
 Qed.
 
-(* the two boundary integers: a value the specification accepts is rejected *)
-Definition ex_spec_accepts (t : string) (z : Z) : Prop :=
+(* the boundary integers of Float and ID (formerly the known class edge_int): the specification accepts them,
+   and so does the code since the repair of the two comparisons *)
+Definition ex_accepts (t : string) (z : Z) : Prop :=
   let vars := [ex_var "v" (TNamed (ex_s t)) None] in
   let values := [(ex_s "v", JInt z)] in
   C28_wf ex_schema vars values /\ known_default_not_coerced ex_schema vars = false /\
   SpecVars ex_schema vars values values /\
-  coerce_variable_values ex_schema vars values = CvErr CvValueError.
+  coerce_variable_values ex_schema vars values = CvOk values.
 
 Lemma ex_spec_vars t z d n' dirs b :
   sch_get_type ex_schema (ex_s t) = Some (EScalar d n' dirs b) -> SpecScalar (ex_s t) (JInt z) ->
@@ -124,10 +115,11 @@ Proof.
     + intros Hv. vm_compute in Hv. discriminate.
 Qed.
 
-Lemma c28_edge_refuted :
-  ex_spec_accepts "Float" j_max_safe_int /\ ex_spec_accepts "Float" (- j_max_safe_int) /\ ex_spec_accepts "ID" j_two63.
+Lemma c28_edge_accepted :
+  ex_accepts "Float" j_max_safe_int /\ ex_accepts "Float" (- j_max_safe_int) /\
+  ex_accepts "ID" j_two63 /\ ex_accepts "ID" (j_two64 - 1).
 Proof.
-  unfold ex_spec_accepts, C28_wf. split; [|split].
+  unfold ex_accepts, C28_wf. split; [|split; [|split]].
   - split; [repeat split; vm_compute; reflexivity|]. split; [vm_compute; reflexivity|]. split; [|vm_compute; reflexivity].
     eapply ex_spec_vars; [vm_compute; reflexivity|]. right; left. split; [reflexivity|]. right.
     exists j_max_safe_int. split; [reflexivity|]. vm_compute. discriminate.
@@ -137,6 +129,32 @@ Proof.
   - split; [repeat split; vm_compute; reflexivity|]. split; [vm_compute; reflexivity|]. split; [|vm_compute; reflexivity].
     eapply ex_spec_vars; [vm_compute; reflexivity|]. right; right; right; right; left. split; [reflexivity|].
     right. now exists j_two63.
+  - split; [repeat split; vm_compute; reflexivity|]. split; [vm_compute; reflexivity|]. split; [|vm_compute; reflexivity].
+    eapply ex_spec_vars; [vm_compute; reflexivity|]. right; right; right; right; left. split; [reflexivity|].
+    right. now exists (j_two64 - 1)%Z.
+Qed.
+
+(* the scalar tests as they were before the repair (Coerce.cv_scalar_ok_old) rejected exactly these values of the
+   specification: the old behaviour with its refuting witnesses; the other integers of the two ranges were accepted *)
+Lemma c28_edge_old_refuted :
+  (SpecScalar rn_Float (JInt j_max_safe_int) /\ cv_scalar_ok_old rn_Float (JInt j_max_safe_int) = false) /\
+  (SpecScalar rn_Float (JInt (- j_max_safe_int)) /\ cv_scalar_ok_old rn_Float (JInt (- j_max_safe_int)) = false) /\
+  (SpecScalar rn_ID (JInt j_two63) /\ cv_scalar_ok_old rn_ID (JInt j_two63) = false) /\
+  (forall n v, cv_scalar_ok_old n v = true -> cv_scalar_ok n v = true).
+Proof.
+  split; [|split; [|split]].
+  - split; [|vm_compute; reflexivity]. right; left. split; [reflexivity|]. right.
+    exists j_max_safe_int. split; [reflexivity|]. vm_compute. discriminate.
+  - split; [|vm_compute; reflexivity]. right; left. split; [reflexivity|]. right.
+    exists (- j_max_safe_int)%Z. split; [reflexivity|]. vm_compute. discriminate.
+  - split; [|vm_compute; reflexivity]. right; right; right; right; left. split; [reflexivity|].
+    right. now exists j_two63.
+  - intros n v. unfold cv_scalar_ok_old, cv_scalar_ok.
+    destruct (streq n rn_Int); [tauto|]. destruct (streq n rn_Float).
+    { destruct v; cbn [json_is_f64 orb]; try tauto.
+      unfold json_int_as_f64_abs_lt_max_safe, json_int_as_f64_abs_le_max_safe. lia. }
+    destruct (streq n rn_String); [tauto|]. destruct (streq n rn_Boolean); [tauto|].
+    destruct (streq n rn_ID); [|tauto]. intros H. now rewrite H.
 Qed.
 
 (* query($a: [Int] = [1], $i: I, $f: Float!) with {"i": {"y": 5}, "f": 7} *)
